@@ -64,12 +64,15 @@ impl Offset {
                 return {
                     let result = fs::read("/etc/localtime");
                     match result {
-                        Ok(bytes) => {
-                            TimeZone::from_tzif(&bytes)
-                                .unwrap()
-                                .to_local_time_type(DateTime::now().timestamp())
-                                .utoff
-                        }
+                        // An unreadable or invalid timezone file is treated like a missing one
+                        Ok(bytes) => match TimeZone::from_tzif(&bytes) {
+                            Ok(time_zone) => {
+                                time_zone
+                                    .to_local_time_type(DateTime::now().timestamp())
+                                    .utoff
+                            }
+                            Err(_) => 0,
+                        },
                         Err(_) => 0,
                     }
                 };
